@@ -161,6 +161,18 @@ CLAIMED = {
              'for the code after fixes 7dca4fc, d468104, 0c64b68 (bind response without body), 5ac7354 (final zero octet of Octet String TLVs). No axioms.',
         technique='Coq proof: refinement of the model encoder to an independent specification layout + table sweeps; differential check against an independent reference encoder/decoder',
         design='6 (C04)'),
+    'C12': dict(
+        text='Coq theorem (Props/C12.v) over an executable model of json_encode/_json_default and json_decode/dict_to_smpp_message/the per-class '
+             'from_json methods (Model/Json.v): for EVERY message of all 15 classes whose attributes are its dataclass fields with values of their '
+             'types - any log_id/extra_data strings, any command_status member, any optional-parameter list, naive/aware datetimes and timedeltas - '
+             'of_json (to_json m) = m; the encoded object names the message type and decoding dispatches on that name. Tied to the code by comparing, '
+             'on generated messages, the real JSON value tree with the model\'s, the real decoder\'s fields and exception classes with the model\'s '
+             '(also on documents with one fault), plus the direct oracle json_decode(json_encode(m)) == m on the real code.',
+        note='Trusted: Coq kernel, the JSON text layer (json/orjson) and the stdlib round trips isoformat/fromisoformat and '
+             'total_seconds/timedelta(seconds=) which the model represents as leaves (checked on every generated value), harness. '
+             'Proved for the code after fix 8f9830c (from_json dropped log_id, extra_data and command_status). No axioms.',
+        technique='Coq proof: generic record round trip over a class table + table facts by evaluation; differential correspondence incl. malformed stream',
+        design='6 (C12)'),
 }
 
 PENDING_REASON = 'check not built yet in this round (planned, see DESIGN.md section 6); not claimed until its proof and correspondence run exist'
